@@ -2,14 +2,21 @@
 
 use crate::ctx::Ctx;
 
+pub mod c01;
+pub mod c02;
+pub mod c03;
+pub mod common;
 pub mod c20;
 
 pub fn implemented(id: &str) -> bool {
-    matches!(id, "C20")
+    matches!(id, "C01" | "C02" | "C03" | "C20")
 }
 
 pub fn run(id: &str, ctx: &mut Ctx) {
     match id {
+        "C01" => c01::run(ctx),
+        "C02" => c02::run(ctx),
+        "C03" => c03::run(ctx),
         "C20" => c20::run(ctx),
         _ => panic!("property {id} has no check"),
     }
